@@ -180,6 +180,7 @@ func RunSeq(sc *SeqScenario) *SeqResult {
 					r.N = len(sim.TickLog) - t0
 					if r.N > 0 {
 						r.TTL, r.Exp = sim.TickLog[t0], sim.TickLog[len(sim.TickLog)-1]
+						r.Ticks = append([]int64(nil), sim.TickLog[t0:]...)
 					}
 					if cacheFam {
 						in.use()
